@@ -22,12 +22,28 @@ CURR = rfield("curr_file")
 DIRSTR = ("str", b"-lhd-")
 
 
+def unbool(fn, o):
+    """`x != 0` (possibly widened) carries the same zero / non-zero verdict as x: the value behind such normalisations"""
+    for _ in range(4):
+        d = fn.defn(o)
+        if d is None or d.is_param:
+            return o
+        if d.op in ("zext", "sext"):
+            o = d.ops[0]
+            continue
+        if d.op == "icmp" and d.pred == "ne" and is_const(d.ops[1]) and const_val(d.ops[1]) == 0:
+            o = d.ops[0]
+            continue
+        return o
+    return o
+
+
 def returned_sources(ctx, fn):
     F = ctx.facts(fn)
     out = []
     for r in rets(fn):
         if r.ops:
-            out.extend(F.sources(r.ops[0]))
+            out.extend((unbool(fn, s_), fs_) for s_, fs_ in F.sources(r.ops[0]))
     return out
 
 
